@@ -190,3 +190,31 @@ impl Rng {
         &xs[self.below(xs.len() as u64) as usize]
     }
 }
+
+// ------------------------------------------------------------------ mechanism events (hooks)
+
+/// Installs the sink for the driver's verification hooks (`wtransport::verif`, present when
+/// /repo carries them: the `mech` feature is switched on by the build scripts in that case):
+/// every event becomes one ndjson line `{"c": connection, "seq": n, "ev": name, fields...}` in
+/// `path`; `seq` is taken under the same mutex that orders the lines.
+#[cfg(feature = "mech")]
+pub fn mech_open(path: &str) {
+    use std::io::Write;
+    let f = std::fs::File::create(path).expect("mech log");
+    let state = std::sync::Mutex::new((std::io::BufWriter::new(f), 0u64));
+    wtransport::verif::install(Box::new(move |conn, ev, fields| {
+        let mut g = state.lock().unwrap_or_else(|e| e.into_inner());
+        g.1 += 1;
+        let seq = g.1;
+        let mut line = format!("{{\"c\":{conn},\"seq\":{seq},\"ev\":\"{ev}\"");
+        for (k, v) in fields {
+            line.push_str(&format!(",\"{k}\":{v}"));
+        }
+        line.push_str("}\n");
+        let _ = g.0.write_all(line.as_bytes());
+        let _ = g.0.flush();
+    }));
+}
+
+#[cfg(not(feature = "mech"))]
+pub fn mech_open(_path: &str) {}
